@@ -87,7 +87,7 @@ def _upgrade_scenario(fl, n0, n1, n2, n3, n4, pending, late, outcome, two, c0, c
             sut.open('polling')
             sut.settle()
             B = _Sess(sut, sut.sids()[1], 'b')
-        st = dict(flavour=sut.flavour, outcome=('complete', 'wrong-frame', 'close')[outcome])
+        st = dict(flavour=sut.flavour, outcome=('complete', 'wrong-frame', 'close', 'accept-fails')[outcome])
 
         def both(n):
             A.send(n)
@@ -106,19 +106,25 @@ def _upgrade_scenario(fl, n0, n1, n2, n3, n4, pending, late, outcome, two, c0, c
             if not g.done:
                 if n0 or n1:
                     return fail(PROP, 'POLL-NOT-ANSWERED', 'pending poll still open although %d messages are queued' % (n0 + n1), **st)
-        u = sut.ws_upgrade(A.sid)
+        from vf.props.common import WsPeer as _WsPeer
+        wp = _WsPeer()
+        wp.fail_accept = outcome == 3
+        u = sut.ws_upgrade(A.sid, peer=wp)
         sut.settle()
         both(n2)
-        u.peer.send('2probe')
-        sut.settle()
-        if u.peer.frames[:1] != ['3probe']:
-            return fail(PROP, 'PROBE', 'server answered %r' % (u.peer.frames,), **st)
+        if outcome != 3:
+            u.peer.send('2probe')
+            sut.settle()
+            if u.peer.frames[:1] != ['3probe']:
+                return fail(PROP, 'PROBE', 'server answered %r' % (u.peer.frames,), **st)
         both(n3)
         late_poll = None
-        if late:
+        if late and outcome != 3:
             late_poll = sut.get(A.sid)
             sut.settle()
-        if outcome == 0:
+        if outcome == 3:
+            pass
+        elif outcome == 0:
             u.peer.send('5')
         elif outcome == 1:
             u.peer.send('4nope')
@@ -128,6 +134,12 @@ def _upgrade_scenario(fl, n0, n1, n2, n3, n4, pending, late, outcome, two, c0, c
         both(n4)
         # ---- collect what the client saw
         for tag, g, _, _ in polls:
+            if not g.done and outcome == 3:
+                # the upgrade never started (accept failed): a poll that is still open is simply waiting for packets
+                if A.n > 0 and n0 + n1 + n2 + n3 + n4 > 0 and not (n0 + n1 > 0):
+                    return fail(PROP, 'POLL-NOT-ANSWERED', 'messages were queued but the pending poll is still open', **st)
+                if n0 + n1 == 0 and n2 + n3 + n4 == 0:
+                    continue
             if not g.done:
                 return fail(PROP, 'POLL-NOT-RELEASED', 'poll pending since before the upgrade was never answered', **st)
             if sut.status(g) != 200:
@@ -177,7 +189,7 @@ def _upgrade_scenario(fl, n0, n1, n2, n3, n4, pending, late, outcome, two, c0, c
         sut.close()
 
 
-@cond(quick=dict(N1=20, timeout=170, parts=dict(FL=[0, 1], OUT=[0, 1, 2])), thorough=dict(N1=24, timeout=1200, parts=dict(FL=[0, 1], OUT=[0, 1, 2], TWO=[0, 1])))
+@cond(quick=dict(N1=20, timeout=170, parts=dict(FL=[0, 1], OUT=[0, 1, 2, 3])), thorough=dict(N1=24, timeout=1200, parts=dict(FL=[0, 1], OUT=[0, 1, 2, 3], TWO=[0, 1])))
 def across_upgrade(fl: int, n0: int, n1: int, n2: int, n3: int, n4: int, pending: bool, late: bool, outcome: int,
                    two: bool, c0: int, c1: int) -> str:
     """
